@@ -96,12 +96,17 @@ class C04(Property):
         return "m%d" % world.model["n"]
 
     def gen_step(self, world, rng):
+        plan = world.model.setdefault("plan", [])
+        while plan:
+            st = plan.pop(0)
+            if st["h"] in world.session(st["sess"]):
+                return st
         sess = rng.pick(self.SESSIONS)
         handles = sorted(world.session(sess))
         cfg = world.cfg
         ops = [("new", 3), ("load", 3), ("foreign_sg", 2), ("stopgap2emmotl", 1)]
         if handles:
-            ops += [("to_sg", 3), ("write", 4), ("filter", 2), ("emmotl2stopgap", 2), ("wrap", 1)]
+            ops += [("to_sg", 3), ("write", 4), ("filter", 2), ("emmotl2stopgap", 2), ("wrap", 1), ("reshift", 2)]
         op = rng.weighted(ops)
         if op == "new":
             n = rng.randrange(1, cfg["max_rows"] + 1)
@@ -121,11 +126,21 @@ class C04(Property):
                     "value": float(rng.randrange(1, 4))}
         if op == "to_sg":
             return {"op": "to_sg", "sess": sess, "h": rng.pick(handles), "reset_index": rng.chance(0.5)}
+        if op == "reshift":
+            return {"op": "reshift", "sess": sess, "h": rng.pick(handles),
+                    "shift": [round(rng.uniform(-6, 6), 2) for _ in range(3)]}
         if op == "write":
-            return {"op": "write", "sess": sess, "h": rng.pick(handles), "path": rng.pick(PATHS),
-                    "update_coord": rng.chance(0.3), "reset_index": rng.chance(0.5),
-                    "api": rng.pick(["StopgapMotl.write_out", "Motl.write_out"]), "io": True,
-                    "hint": {"write": 3, "any": 8}}
+            st = {"op": "write", "sess": sess, "h": rng.pick(handles), "path": rng.pick(PATHS),
+                  "update_coord": rng.chance(0.3), "reset_index": rng.chance(0.5),
+                  "api": rng.pick(["StopgapMotl.write_out", "Motl.write_out"]), "io": True,
+                  "hint": {"write": 3, "any": 8}}
+            if st["update_coord"] and rng.chance(0.6):
+                # plan the next alignment iteration on the same object: new shifts, then another updating write
+                plan.append({"op": "reshift", "sess": sess, "h": st["h"], "shift": [round(rng.uniform(-6, 6), 2) for _ in range(3)]})
+                plan.append({"op": "write", "sess": sess, "h": st["h"], "path": rng.pick(PATHS), "update_coord": True,
+                             "reset_index": rng.chance(0.5), "api": "StopgapMotl.write_out", "io": True,
+                             "hint": {"write": 3, "any": 8}})
+            return st
         if op == "load":
             return {"op": "load", "sess": sess, "path": rng.pick(PATHS[:4]), "h": self.new_handle(world),
                     "api": rng.pick(["StopgapMotl", "Motl.load"]), "io": True, "hint": {"read": 2, "any": 5}}
@@ -293,6 +308,25 @@ class C04(Property):
         h["model"] = h["model"][keep]
         self.check_shared(world, h["obj"].df, h["model"], "after remove_feature")
         world.stats["acks"] += 1
+        return []
+
+    def op_reshift(self, world, step):
+        """a new alignment iteration: the list receives new shifts (Motl.fill), as between two write_out calls"""
+        sess = world.session(step["sess"])
+        if step["h"] not in sess:
+            raise Skip()
+        h = sess[step["h"]]
+        if isinstance(h["obj"], pd.DataFrame) or len(h["model"]) == 0:
+            raise Skip()
+        n = len(h["model"])
+        vals = np.tile(np.array(step["shift"], dtype=float), (n, 1)) + np.arange(n).reshape(n, 1) * 0.25
+        out = world.call(step["sess"], h["obj"].fill, {"shifts": vals})
+        if not out.ok:
+            raise Violation("fill_raised", "fill:%s" % out.describe(), "Motl.fill({'shifts': ...}) raised %r\n%s" % (out.exc, out.tb))
+        for k, ax in enumerate(("shift_x", "shift_y", "shift_z")):
+            h["model"][:, IDX[ax]] = vals[:, k]
+        self.check_shared(world, h["obj"].df, h["model"], "after fill(shifts)")
+        world.probes["new_shifts_between_writes"] += 1
         return []
 
     def op_to_sg(self, world, step):
